@@ -166,6 +166,15 @@ class UnifiedRTFEncoder(EncodingStrategy):
     def encode(self, document: Any) -> str:
         """Encode the document using the unified pipeline."""
 
+        # Colour indices are resolved against the table of the document being
+        # encoded on every path, and the context never outlives the call.
+        color_service.set_document_context(document)
+        try:
+            return self._encode_with_color_context(document)
+        finally:
+            color_service.clear_document_context()
+
+    def _encode_with_color_context(self, document: Any) -> str:
         # 1. Figure-only handling
         if document.df is None:
             return self._encode_figure_only(document)
@@ -175,8 +184,6 @@ class UnifiedRTFEncoder(EncodingStrategy):
             return self._encode_multi_section(document)
 
         # 3. Standard Pipeline
-        color_service.set_document_context(document)
-
         page_rtf_chunks = self._encode_body_section(
             document, document.df, document.rtf_body
         )
@@ -205,7 +212,6 @@ class UnifiedRTFEncoder(EncodingStrategy):
             ]
         )
 
-        color_service.clear_document_context()
         return result
 
     def _apply_data_post_processing(self, pages, processed_df, rtf_body):
